@@ -6,8 +6,8 @@
    not theorems (see C18_dykstra_post for what is proved); they are explored by the check against an independent QP. *)
 From Coq Require Import ZArith Reals List Bool QArith.
 From DK Require Import Num NumR NumQ Vec.
-From DK.Model Require Import Leaf Projection.
-From DK.Proofs Require Import RVec VecAlg C18Proofs C18Cols.
+From DK.Model Require Import Leaf Fn Dev Tree Projection ProjectionTree.
+From DK.Proofs Require Import RVec VecAlg C18Proofs C18Cols C18Bridge.
 Import ListNotations.
 Local Open Scope R_scope.
 
@@ -64,6 +64,9 @@ Theorem C18_slab_member_partial : forall tol n lw hg (x q : list R), dot n n <> 
   slab_project tol n lw hg x = POk q ->
   dot n q <= hg /\ (lw <= dot n q \/ (q = x /\ is_in_of tol (half_project n lw 1) x = POk true)).
 Proof. exact slab_member_relaxed. Qed.
+Theorem C18_slab_result_passes_is_in : forall tol n lw hg (x q : list R), dot n n <> 0 -> lw <= hg -> 0 <= tol ->
+  slab_project tol n lw hg x = POk q -> slab_is_in tol n lw hg q = POk true.
+Proof. exact slab_result_passes_is_in. Qed.
 Theorem C18_slab_member_exact_at_tol_0 : forall n lw hg (x q : list R), dot n n <> 0 -> lw <= hg ->
   slab_project 0 n lw hg x = POk q -> in_slab n lw hg q.
 Proof. exact slab_member_exact. Qed.
@@ -188,6 +191,11 @@ Proof. exact tproject_bad_size. Qed.
 Theorem C18_mf_shares_within_conduit_bounds : forall b k t, one_signed b -> (1 <= k)%nat -> in_box b t ->
   in_box (conduit_bounds_R b) (map (fun v => v / nofnat k) t).
 Proof. exact share_in_conduit. Qed.
+
+(* the projection model's reading of a tree of Model/Tree.v computes tree_project (any carrier; structural, axiom-free) *)
+Theorem C18_tree_view_agrees_with_tree_model : forall (A : Type) (NA : Num A) n (d : dev A), twfd n d ->
+  forall S, gshape (tree_rows d) n S -> tproject n (ptree_of d) S = POk (tree_project d S).
+Proof. intros A NA. exact (@tree_models_agree A NA). Qed.
 
 (* non-vacuity *)
 Example C18_example_halfspace : half_project [3; 4] 25 1 [0; 0] = POk [3; 4].
